@@ -142,6 +142,9 @@ def make_program(rng, T0, horizon):
     return pv.TemperatureProgram(coefficients=co, type=typ)
 
 
+_LAST_SYN_T = [None]
+
+
 def scenario(rng, kind=None, mode=None, removal=None, builtin_p=0.6, prog_p=0.4):
     mix = gen.some_mixture(rng, p_builtin=builtin_p)
     kind = kind or rng.choice(KINDS)
@@ -150,6 +153,12 @@ def scenario(rng, kind=None, mode=None, removal=None, builtin_p=0.6, prog_p=0.4)
     # the whole range of the quantifier, its edges included; sometimes from a small grid, so that different runs (other mixtures,
     # other components of the same name) meet at EQUAL temperatures
     T0 = gen.edge_temperature(rng) if rng.random() < 0.75 else rng.choice(gen.GRID_T)
+    if mix.name.startswith("SYN"):
+        # the previous synthetic mixture of this process - other components, often under the SAME names - was run at this very
+        # temperature: anything remembered by name and temperature instead of by the component's constants shows up
+        if _LAST_SYN_T[0] is not None and rng.random() < 0.3:
+            T0 = _LAST_SYN_T[0]
+        _LAST_SYN_T[0] = T0
     sc = {"mix": mix, "kind": kind, "mode": mode, "model": model, "T0": T0,
           "N": rng.choice([1, 2, 3, 5, 8, 12]), # from a laboratory cell (grams of feed on a few cm2) to a plant
           "A": gen.logu(rng, 1e-4, 1e2), "m0": gen.logu(rng, 1e-3, 1e3),
